@@ -156,7 +156,31 @@ def fixed_instances():
                [{"start": k, "stop": k + 1, "width": 8, "r": 0, "w": 1} for k in (1, 2, 3)] + \
                [{"start": 5, "stop": 7, "width": 9, "r": 0, "w": 1}]
         out.append(_adapter_instance("csr.Multiplexer", ad, {"dw": 8, "aw": 3, "al": 0, "regs": regs, "overlaps": ov}))
+    # names the memory map keeps apart (C18: any parts, '0' versus 0) but that look alike once flattened
+    for ops in ([{"scope": ["a"], "name": "b"}, {"scope": [], "name": "a__b"}],
+                [{"scope": ["g", 0], "name": "r"}, {"scope": ["g", "0"], "name": "r"}],
+                [{"scope": [1], "name": "x"}, {"scope": ["1"], "name": "x"}, {"scope": [], "name": "1__x"}],
+                [{"scope": [], "name": "mux"}, {"scope": ["mux"], "name": "mux"}]):
+        out.append(bridge_instance(None, {"aw": 5, "dw": 8, "ops": [dict(o, width=8, offset=None) for o in ops]}))
+    for fields in ({"a": {"b": 4}, "a__b": 4}, {"a": [4, 4], "a__0": 4, "a__1": 2}, {"x": {"0": 3}, "y": 1, "x__0": 3}):
+        out.append(named_register_instance(fields))
     return out
+
+
+def named_register_instance(fields):
+    def mk(t):
+        if isinstance(t, dict):
+            return {k: mk(v) for k, v in t.items()}
+        if isinstance(t, list):
+            return [mk(v) for v in t]
+        return csr.Field(action.RW, t)
+
+    def thunk():
+        d = csr.Register(mk(fields), access="rw")
+        e = d.element
+        return {"design": d, "ins": {"r_stb": e.r_stb, "w_stb": e.w_stb, "w_data": e.w_data}, "outs": {"r_data": e.r_data},
+                "clocked": True, "meta": [], "top": False}
+    return {"cls": "csr.Register", "params": {"fields": fields}, "thunk": thunk}
 
 
 def high_mux_cfg(r):
@@ -344,12 +368,13 @@ def register_instance(r):
     return {"cls": "csr.Register", "params": cfg, "thunk": thunk}
 
 
-def bridge_instance(r):
-    dw = r.choice([8, 16, 32])
-    cfg = {"aw": r.choice([4, 6, 8]), "dw": dw, "ops": []}
-    for k in range(r.randint(1, 5)):
-        cfg["ops"].append({"scope": r.choice([[], ["grp"], [3], ["grp", 1], ["a", "b"]]), "name": f"r{k}",
-                           "width": r.choice([1, 8, 12, 16, 40]), "offset": None})
+def bridge_instance(r, cfg=None):
+    dw = r.choice([8, 16, 32]) if r else 8
+    if cfg is None:
+        cfg = {"aw": r.choice([4, 6, 8]), "dw": dw, "ops": []}
+        for k in range(r.randint(1, 5)):
+            cfg["ops"].append({"scope": r.choice([[], ["grp"], [3], ["grp", 1], ["a", "b"]]), "name": f"r{k}",
+                               "width": r.choice([1, 8, 12, 16, 40]), "offset": None})
 
     def thunk():
         b = csr.Builder(addr_width=cfg["aw"], data_width=cfg["dw"])
